@@ -132,7 +132,7 @@ Definition cee_exts (cp : N) (settings custom : bytes) : bytes :=
   (if cp =? 0 then [] else enc_u16 cp ++ enc_u16lp settings) ++
   (if is_empty custom then [] else enc_u16 ext_custom ++ enc_u16lp custom).
 Definition cee_marshal (cp : N) (settings custom : bytes) : res bytes :=
-  if (65536 <=? blen settings) || (65536 <=? blen custom) then Err E_BUILD else
+  if (negb (cp =? 0) && (65536 <=? blen settings)) || (65536 <=? blen custom) then Err E_BUILD else   (* a child is only built when written *)
   let exts := cee_exts cp settings custom in
   if 65536 <=? blen exts then Err E_BUILD else
   Ok (typeEncryptedExtensions :: enc_u24lp (enc_u16lp exts)).
